@@ -531,6 +531,113 @@ def leg_fault_injection(cases, flavour, tier, jobs=8):
             "fault_outcomes_compared_with_model": compared}
 
 
+
+# ---------------------------------------------------------------------------------------------
+# a streamed writer whose caller carries on after a failed call (C13 / C14 / C01)
+# ---------------------------------------------------------------------------------------------
+WRITER_FAULT_CALLS = ["write", "ftruncate", "msync", "lseek", "fallocate", "renameat,renameat2,rename", "mkdir", "openat"]
+WRITER_ERRNOS = ["EINTR", "EIO", "ENOSPC"]
+
+
+def writer_fault_cases():
+    """Streamed writes (no declared size / exact / too small = the mapping overflows / too large = short)
+    whose caller tries a failed `write` again with the unacknowledged bytes (`wwrite_p`: what `write_all`
+    does by itself on EINTR) and then commits."""
+    a, b = b"first part of the stream;", b" and the second part of it, somewhat longer than the first."
+    cases = []
+    for fl in "sa":
+        for name, size in (("undeclared", None), ("exact", len(a) + len(b)), ("overflow", len(a) + 7), ("short", len(a) + len(b) + 9),
+                           ("overflow0", 0)):
+            if name == "overflow0":
+                continue            # declared size 0 never maps (F13 family is judged by C20)
+            sz = f"size={size}" if size is not None else "size=-"
+            ops = [f"wopen {fl} c0 W1 {hx(b'wk')} algo=sha256 {sz} sri=- time=- meta=- raw=-",
+                   f"wwrite_p W1 {hx(a)}", f"wwrite_p W1 {hx(b)}", "wcommit W1"]
+            cases.append({"name": f"{name}/{fl}", "ops": ops, "data": a + b, "size": size, "key": b"wk", "algo": "sha256"})
+    return cases
+
+
+def leg_writer_faults(flavour, tier, jobs=8):
+    """One errno at every occurrence of every syscall class during a streamed write whose caller persists.
+    Judged from a fresh process: the content area is valid whatever happened (no file whose bytes are not
+    the address's digest - F17: a failed truncation while leaving the mapping used to leave a writer that
+    published padding); a commit that answers ok means the key reads back exactly the stream, an error means
+    the key is not mapped to it; nothing panics or hangs; no temp file stays."""
+    failures, classes, samples = [], set(), []
+    injections = 0
+    WORKER = {"DRIVE_WORKER": "1"}
+    ALLNAMES = sum((c.split(",") for c in WRITER_FAULT_CALLS), [])
+
+    def run_case(case):
+        out = []
+        sc = os.path.join(C.scratch_root(), f"wf{next(E._counter)}")
+        base = T.run_traced(flavour, case["ops"], scratch=sc, env_extra=WORKER, extra_trace=ALLNAMES)
+        shutil.rmtree(sc, ignore_errors=True)
+        pids = list(base.counts_by_pid)
+        threads = pids[1:] if len(pids) > 1 else pids
+        for cls in WRITER_FAULT_CALLS:
+            names = cls.split(",")
+            mx = max([sum(base.counts_by_pid[t].get(nm, 0) for nm in names) for t in threads] or [0])
+            occ = list(range(1, mx + 1))
+            if tier == "quick" and len(occ) > 4:
+                occ = [occ[0], occ[1], occ[len(occ) // 2], occ[-1]]
+            for n in occ:
+                for en in (WRITER_ERRNOS if tier == "thorough" or cls in ("ftruncate", "msync", "lseek") else WRITER_ERRNOS[:2]):
+                    scratch = os.path.join(C.scratch_root(), f"wf{next(E._counter)}")
+                    r = T.run_traced(flavour, case["ops"], scratch=scratch, env_extra=WORKER, extra_trace=names,
+                                     inject=f"inject={cls}:error={en}:when={n}")
+                    probe = ["dump c0", "dump c0/tmp", f"read s c0 {hx(case['key'])}"]
+                    r2 = T.run_traced(flavour, probe, scratch=scratch, reuse=True)
+                    shutil.rmtree(scratch, ignore_errors=True)
+                    out.append((cls, n, en, r, r2, probe))
+        return case, out
+    with ThreadPoolExecutor(max_workers=jobs) as ex:
+        allres = list(ex.map(run_case, writer_fault_cases()))
+    for case, out in allres:
+        for cls, n, en, r, r2, probe in out:
+            if not any(e.startswith("injected") for ev in r.events for e in ev):
+                continue
+            injections += 1
+            where = f"{en} injected into {cls.split(',')[0]} #{n} during the streamed write {case['name']} (declared size {case['size']})"
+            sig = {"victim": "stream-" + case["name"].split("/")[0], "call": cls.split(",")[0], "errno": en}
+            lines = [toks(x) for x in r.impl_lines]
+            fs_ = trace_monitor(r, case["ops"], where + ": ")
+            if r.killed or any(t[0] in ("panic", "hang") for t in lines) or len(lines) < len(case["ops"]):
+                fs_.append(Failure("panic_or_hang_on_fault", n, f"{where}: {[' '.join(t[:3]) for t in lines][-2:]}", sig=sig))
+            il = r2.impl_lines
+            if len(il) < len(probe):
+                fs_.append(Failure("unusable_after_fault", n, f"{where}: inspection stopped", sig=sig))
+            else:
+                fs_ += content_valid_monitor(il[0], where)
+                commit = lines[len(case["ops"]) - 1] if len(lines) >= len(case["ops"]) else ["missing"]
+                acked = all(t[0] == "ok" for t in lines[1:len(case["ops"]) - 1])
+                rd = toks(il[2])
+                good_size = case["size"] is None or case["size"] == len(case["data"])
+                if commit[0] == "ok":
+                    if not acked or not good_size:
+                        fs_.append(Failure("false_success", n, f"{where}: commit answered ok although "
+                                           + ("a write was refused" if not acked else "the declared size is wrong"), sig=sig))
+                    elif rd[0] != "ok" or unhx(rd[1]) != case["data"]:
+                        fs_.append(Failure("false_success", n, f"{where}: commit answered ok but the key does not read back the stream", sig=sig))
+                elif rd[0] == "ok":
+                    fs_.append(Failure("failed_write_visible", n, f"{where}: commit answered {' '.join(commit[:3])} but the key reads", sig=sig))
+                tfiles, _, _ = parse_dump(il[1])
+                if tfiles:
+                    fs_.append(Failure("temp_left_after_fault", n, f"{where}: left in tmp: {sorted(tfiles)[:2]}", sig=sig))
+            for f in fs_:
+                f.replay_text = "\n".join(case["ops"]) + f"\n# with strace -e inject={cls}:error={en}:when={n} (DRIVE_WORKER=1); then:\n" + "\n".join(probe) + "\n"
+            failures += fs_
+            res = " / ".join(" ".join(t[:3]) if t[0] == "err" else t[0] for t in lines[1:])
+            classes.add((case["name"], cls.split(",")[0], en, res))
+            if len(samples) < 4:
+                samples.append({"stream": case["name"], "inject": f"{cls.split(',')[0]}#{n}:{en}", "results": res})
+    by_call = {}
+    for nm, c, en, rs in classes:
+        by_call[f"stream-{nm.split('/')[0]}/{c}"] = by_call.get(f"stream-{nm.split('/')[0]}/{c}", 0) + 1
+    return {"failures": failures, "disagreements": [], "evaluations": injections, "distinct_nontrivial": len(classes),
+            "samples": samples, "injections": injections, "fault_classes": by_call}
+
+
 _TIME_RE = re.compile(rb'"time":\d+')
 
 
